@@ -411,6 +411,11 @@ fn run(c: &Case, out: &mut Out) {
                 }
             }
         }
+        if matches!(name, "setup" | "send" | "sleep" | "recluster") {
+            // a scenario of the black-box tier (c19e): replayed there by props/c19.py:extra_stage
+            out.obs(&[]);
+            continue;
+        }
         if name == "new" {
             let cfg = cfg_of(&a[0..8]);
             let (mf, mrx, seed) = (a[8].n() as usize, a[9].n() as usize, a[10].n() as u64);
